@@ -194,6 +194,9 @@ def finish(res: Result, tier, t0, level="other", explanation="", extra_cov=None,
     print(f"[{res.pid}] tier={tier} obligations={res.obligations} discharged={res.discharged} "
           f"evaluations={cov['evaluations']} distinct={len(res.nontrivial)} known={len(old)} new={len(new)} "
           f"wall={ev['wall_s']}s")
+    stale_rp = os.path.join(EVIDENCE_DIR, f"{res.pid}.violation.json")
+    if not new and os.path.exists(stale_rp):
+        os.remove(stale_rp)          # a replay file of an earlier failing run must not outlive a passing one
     if new:
         rp = os.path.join(EVIDENCE_DIR, f"{res.pid}.violation.json")
         with open(rp, "w") as fh:
